@@ -55,13 +55,32 @@ Ideal(e) == Len(e.views) = 2 /\ EventIs(e, Expected)
 (* Catalogue of open deviations: each entry is an exact as-is model - an   *)
 (* alternative definition of the effective attributes that applies under   *)
 (* an exact condition.  An event that is not ideal gets the name of the    *)
-(* entry whose as-is model reproduces the whole observation; a different   *)
-(* wrong answer matches nothing and is a VIOLATION.                        *)
-(* (none at present)                                                       *)
+(* entry whose as-is model reproduces the whole observation (both views,   *)
+(* every element, values, specified flags, length, get_attribute); a       *)
+(* different wrong answer matches nothing and is a VIOLATION.              *)
+(*                                                                         *)
+(* "required-attribute-materialized": XmlElement::attributes() adds an     *)
+(* attribute for every binding definition that is not #IMPLIED, so an      *)
+(* unwritten #REQUIRED attribute is reported with the empty value and      *)
+(* specified = false (it has no default value to take).  Pinned by the     *)
+(* repository's own test info::tests::test_attribute_specified_required,   *)
+(* so it cannot be repaired with the test suite unedited.                  *)
 (***************************************************************************)
-Catalogue == {}
-AsIs(name, doc, i) == Expected(doc, i)
-Applies(name, doc) == FALSE
+Catalogue == {"required-attribute-materialized"}
+
+RequiredUnwritten(doc, i) ==
+  LET d == DefsFor(doc.attlists, doc.els[i].el)
+  IN { n \in { d[k].n : k \in 1..Len(d) } \ WrittenNames(doc.els[i].written) :
+          BindingDef(doc.attlists, doc.els[i].el, n).dk = "REQUIRED" }
+
+AsIs(name, doc, i) ==
+  CASE name = "required-attribute-materialized" ->
+         Expected(doc, i) \cup { [n |-> n, v |-> <<>>, spec |-> FALSE] : n \in RequiredUnwritten(doc, i) }
+    [] OTHER -> Expected(doc, i)
+
+Applies(name, doc) ==
+  CASE name = "required-attribute-materialized" -> \E i \in 1..Len(doc.els) : RequiredUnwritten(doc, i) # {}
+    [] OTHER -> FALSE
 
 Matching(e) ==
   { name \in Catalogue \cap Open :
